@@ -351,7 +351,7 @@ func (lk *lookup) run(rng *rand.Rand, seed int64, idx int, concurrent bool) (err
 		}
 	}
 	quiesce := func() error {
-		deadline := time.Now().Add(10 * time.Second)
+		deadline := time.Now().Add(30 * time.Second)
 		for {
 			drain()
 			s := op.VerifSnapshot()
@@ -390,7 +390,7 @@ func (lk *lookup) run(rng *rand.Rand, seed int64, idx int, concurrent bool) (err
 		for _, h := range heldQ {
 			select {
 			case <-h.ctx.Done():
-			case <-time.After(3 * time.Second):
+			case <-time.After(20 * time.Second):
 				uncancelled++
 			}
 		}
@@ -456,7 +456,7 @@ func (lk *lookup) run(rng *rand.Rand, seed int64, idx int, concurrent bool) (err
 		select {
 		case <-consDone:
 			consWaiting = false
-		case <-time.After(10 * time.Second):
+		case <-time.After(30 * time.Second):
 			writeHang(hang{seed, idx, "stalled never reported although no query is in flight and nothing qualifies", op.VerifSnapshot()})
 			return errHang
 		}
@@ -473,21 +473,21 @@ func (lk *lookup) run(rng *rand.Rand, seed int64, idx int, concurrent bool) (err
 	stoppedOK := true
 	select {
 	case <-op.Stopped():
-	case <-time.After(10 * time.Second):
+	case <-time.After(30 * time.Second):
 		stoppedOK = false
 		writeHang(hang{seed, idx, "Stop never completed although every query returned", op.VerifSnapshot()})
 		return errHang
 	}
 	select {
 	case <-lk.exit:
-	case <-time.After(10 * time.Second):
+	case <-time.After(30 * time.Second):
 		writeHang(hang{seed, idx, "run loop never exited after Stop", op.VerifSnapshot()})
 		return errHang
 	}
 	if consWaiting {
 		select {
 		case <-consDone:
-		case <-time.After(10 * time.Second):
+		case <-time.After(30 * time.Second):
 			writeHang(hang{seed, idx, "Stalled() not closed after the run loop exited", op.VerifSnapshot()})
 			return errHang
 		}
